@@ -262,6 +262,29 @@ type didIdent struct {
 	exists  bool
 	dead    bool
 	authKey map[string]*didKey // vmID -> key currently listed under authentication (believed)
+	lastDoc *didtypes.DIDDocument
+}
+
+// caseVariant flips the case of one letter of the identifier such that it stays in the base58 alphabet.
+func caseVariant(did string) string {
+	b := []byte(did)
+	for i := len(b) - 1; i >= len("did:panacea:"); i-- {
+		c := b[i]
+		var f byte
+		switch {
+		case c >= 'a' && c <= 'z':
+			f = c - 32
+		case c >= 'A' && c <= 'Z':
+			f = c + 32
+		default:
+			continue
+		}
+		if strings.IndexByte(didtypes.Base58Charset, f) >= 0 {
+			b[i] = f
+			return string(b)
+		}
+	}
+	return did
 }
 
 func rel(id string) didtypes.VerificationRelationship { return didtypes.NewVerificationRelationship(id) }
@@ -404,7 +427,7 @@ func mutateDoc(rng *rand.Rand, d *didtypes.DIDDocument) *didtypes.DIDDocument {
 func didHistory(e *didEnv, rng *rand.Rand, idents []*didIdent, relayers []string, steps int) {
 	e.reset()
 	for _, it := range idents {
-		it.seq, it.exists, it.dead, it.authKey = 0, false, false, nil
+		it.seq, it.exists, it.dead, it.authKey, it.lastDoc = 0, false, false, nil, nil
 	}
 	type sent struct {
 		kind string
@@ -467,9 +490,13 @@ func didHistory(e *didEnv, rng *rand.Rand, idents []*didIdent, relayers []string
 			if rng.Intn(40) == 0 {
 				m.Did = it.did + "0"
 			}
+			if rng.Intn(15) == 0 {
+				m.Did = caseVariant(it.did)
+			}
 			ok := e.create(m)
 			if ok {
 				it.exists, it.seq, it.authKey = true, 0, auth
+				it.lastDoc = doc
 			}
 			log = append(log, sent{kind: "c", c: m, ok: ok})
 		case r < 11: // update
@@ -480,6 +507,11 @@ func didHistory(e *didEnv, rng *rand.Rand, idents []*didIdent, relayers []string
 			if rng.Intn(12) == 0 {
 				doc = &didtypes.DIDDocument{} // "deactivate by update"
 				auth = nil
+			}
+			if it.lastDoc != nil && rng.Intn(6) == 0 {
+				// an update that re-submits exactly the stored document (must still consume a sequence number)
+				cp := *it.lastDoc
+				doc, auth = &cp, it.authKey
 			}
 			vmID, key := pickAuth(it)
 			seq := it.seq
@@ -495,9 +527,13 @@ func didHistory(e *didEnv, rng *rand.Rand, idents []*didIdent, relayers []string
 			if rng.Intn(40) == 0 {
 				m.Document = nil
 			}
+			if rng.Intn(15) == 0 {
+				m.Did = caseVariant(it.did) // same identifier up to letter case: a different DID
+			}
 			ok := e.update(m)
 			if ok {
 				it.seq++
+				it.lastDoc = doc
 				it.authKey = auth
 				if doc.Id == "" {
 					it.dead = true
